@@ -65,6 +65,10 @@ NsSettle(ns) == IF ns.pend THEN NsPop(ns) ELSE ns
 \* resolve_prefix: result = <<"Bound", uri>> | <<"Unbound">> | <<"Unknown", prefix>>
 \* name = qualified name bytes; useDefault = element (TRUE) / attribute (FALSE)
 ColonAt(name) == LET S == {i \in 1..Len(name) : name[i] = COLON} IN IF S = {} THEN 0 ELSE CHOOSE i \in S : \A j \in S : i <= j
+\* QName::local_name / QName::prefix: split at the FIRST colon (none: no prefix, the whole name is local)
+LocalOf(name) == IF ColonAt(name) = 0 THEN name ELSE SubSeq(name, ColonAt(name) + 1, Len(name))      \* (ColonAt is 1-based, 0 = none)
+PrefixOf(name) == IF ColonAt(name) = 0 THEN <<>> ELSE SubSeq(name, 1, ColonAt(name) - 1)
+
 NsResolve(ns, name, useDefault) ==
     LET c == ColonAt(name)
         hasP == c > 0
